@@ -11,7 +11,7 @@ EXPLANATION = ("Decides, for gix-packetline and its copy gix-packetline-blocking
                "decoder's marker table pairs each constant with its own variant, the encoders write the same constant items; (3) every length "
                "prefix emitted by the encoder is cut off from entry unless `len <= MAX_DATA_LEN` held, and Writer::write chunks by min(MAX_DATA_LEN); "
                "(4) reader buffers are sized by the MAX_LINE_LEN item; (5) in read_line_inner the largest decoded length that passes the guard, plus the constant "
-               "prefix split off before it, fits MAX_LINE_LEN (constants read from evaluated MIR). Chunking independence and side-band demultiplexing order are not decided; "
+               "prefix split off before it, fits MAX_LINE_LEN (constants read from evaluated MIR). Chunking independence and side-band demultiplexing order are not decided (Writer::write selects the text encoder under the same condition under which it subtracts the extra newline byte); "
                "the async-io variant compiles to coroutine state machines and is not analysed.")
 SPEC = {"U16_HEX_BYTES": 4, "MAX_DATA_LEN": 65516, "MAX_LINE_LEN": 65520,
         "FLUSH_LINE": b"0000", "DELIMITER_LINE": b"0001", "RESPONSE_END_LINE": b"0002", "ERR_PREFIX": b"ERR "}
